@@ -12,6 +12,9 @@ EXTRA = [
     'struct A { a @0: f32, b @1: i7, c @2: f64, }\nimpl can for A { id: 3, }' if False else 'struct A { a @0: f32, b @1: i7, c @2: u8, }\nimpl can for A { id: 3, }',
     'struct A { a @0: u64, b @1: u1, }\nimpl can for A { id: 4, }',
     'struct A { a @0: u8, s @1: str, }\nimpl can for A { id: 5, }',
+    'struct A { a @0: u8, o @1: Optional[u8], }\nimpl can for A { id: 5, }',
+    'struct I { o @0: Optional[u16], }\nstruct A { a @0: u8, i @1: I, }\nimpl can for A { id: 5, }',
+    'struct A { a @0: u8, d @1: [u8], }\nimpl can for A { id: 5, }',
     'struct A { a @0: u8, }\nstruct B { b @0: u16, }\nimpl can for A { id: 5, bus: "x", }\nimpl can for B { id: 6, bus: "y", }',
     # two bindings of the same struct with different per-signal options, on the same and on different buses
     'struct A { a @0: u8, b @1: u16, }\nimpl can for A as X { id: 1, signal b { endianess: "big", }, }\nimpl can for A as Y { id: 2, }',
@@ -25,11 +28,13 @@ def check(src):
     fcp = get_fcp_from_string('version: "3"\n' + src + "\n", Logger({})).unwrap()
     enc = make_encoder("packed", fcp, PackedEncoderContext().with_unroll_arrays(True))
     impls = [i for i in fcp.impls if i.protocol == "can"]
+    # expectation from an independent layout function (native/layout.py), not from the encoder under test
+    from native.layout import leaves as _leaves
     bad = False
     for i in impls:
         try:
-            e = enc.generate(i)
-            if e[-1].bitstart + e[-1].bitlength > 64:
+            exp = _leaves(fcp, i.type, "", True)
+            if sum(w for _, w, _ in exp) > 64:
                 bad = True
         except ValueError:
             bad = True
